@@ -1,7 +1,8 @@
 SPECIFICATION Spec
 CONSTANTS
   MaxSteps = 7
+  CopyKinds = {2, 4, 6}
   Variant = "asWritten"
   Codes = {101, 103, 404}
-INVARIANTS FreshAfterReset HijackReaches CodeOK LastWins
+INVARIANTS FreshAfterReset HijackReaches UnderExact CodeOK LastWins
 CHECK_DEADLOCK FALSE
